@@ -258,7 +258,8 @@ def stampPkgID (W : World) (cur : PkgID) (decl : PkgID) : PkgID :=
 
 /-- `getDeclaredPkgID(t)` on the type shapes that matter -/
 inductive TypeShape
-  | declared (p : Nat)          -- *DeclaredType / *StructType with a PkgPath
+  | declared (p : Nat)          -- a *StructType with a PkgPath (or a named struct type)
+  | named (p : Nat) (base : TypeShape)  -- *DeclaredType `type N <base>` declared in package p (any base kind)
   | ptrTo (t : TypeShape)       -- *PointerType: walks to Elt
   | sliceOf (t : TypeShape)     -- anything else: zero PkgID
   | arrayOf (t : TypeShape)
@@ -268,12 +269,19 @@ inductive TypeShape
 
 def getDeclaredPkgID : TypeShape → PkgID
   | .declared p => some p
+  | .named p _ => some p
   | .ptrTo t => getDeclaredPkgID t
   | _ => none
+
+/-- `baseOf(t)`: strips the declared name -/
+def TypeShape.baseOf : TypeShape → TypeShape
+  | .named _ b => b
+  | t => t
 
 /-- the type expression contains the type declared in package `p` -/
 def TypeShape.mentions : TypeShape → Nat → Bool
   | .declared q, p => q == p
+  | .named q b, p => q == p || b.mentions p
   | .ptrTo t, p => t.mentions p
   | .sliceOf t, p => t.mentions p
   | .arrayOf t, p => t.mentions p
@@ -289,6 +297,12 @@ def refusePersistRealm (realmTyped origin : Bool) : Except Err Unit :=
     DeclaredType whose PkgPath is `m.Realm.Path` -/
 def convGuard (W : World) (s : St) (xv : TV) (ownDeclared : Bool) : Except Err Unit :=
   if isReadonly W s xv && !ownDeclared then .error .conv else .ok ()
+
+/-- `doOpConvert` case 2: conversion TO a declared type `tdt` of package `decl`
+    (`immutable = tdt.IsImmutable()`, true for primitive-based declared types) -/
+def convToGuard (W : World) (s : St) (decl : Nat) (immutable : Bool) : Except Err Unit :=
+  if !immutable && s.realm.isSome && W.isRealmPath decl && s.realm != some decl then .error .conv
+  else .ok ()
 
 /-! ## event trees and the abstract machine -/
 
@@ -339,6 +353,8 @@ inductive Ev
   | roName (hiv : Bool) (base : OidRef) (next : Ev)
   /-- doOpConvert case 1 -/
   | conv (tv : TVRef) (ownDeclared : Bool) (next : Ev)
+  /-- doOpConvert case 2: conversion to a declared type of package `decl` -/
+  | convTo (decl : Nat) (immutable : Bool) (next : Ev)
   /-- the value of object `po` was overwritten; `DidUpdate(po, nil, nil)` follows.
       `tag` names the object for the driver's report. -/
   | upd (po : OidRef) (tag : Nat) (next : Ev)
@@ -453,6 +469,10 @@ def run (W : World) : Ev → Ctx → Except Err Ctx
     if isExternalRealm W c.st (nameBase hiv (resolveOid W c base)) then .error .readonly else run W next c
   | .conv tv own next, c =>
     match convGuard W c.st (resolveTV W c tv) own with
+    | .error e => .error e
+    | .ok _ => run W next c
+  | .convTo decl imm next, c =>
+    match convToGuard W c.st decl imm with
     | .error e => .error e
     | .ok _ => run W next c
   | .upd po tag next, c =>
